@@ -667,5 +667,6 @@ def get_hardware_num_denom(
         )
 
     denom_diff = 4 - instr.angle_denom.value
-    angle_num = instr.angle_num.value * (2**denom_diff)
+    # 32 * pi/16 is a full turn: keep the numerator inside the 8-bit immediate
+    angle_num = (instr.angle_num.value * (2**denom_diff)) % 32
     return (Immediate(angle_num), Immediate(4))
